@@ -2,15 +2,15 @@
    the suite's extracted function, prints one result sx per line.  The only
    hand-written OCaml in the trusted base: sx parsing/printing and the
    conversion between decimal text and Coq's binary integers. *)
-open Model
+module M = Model
 
 let rec pos_of_int n =
-  if n = 1 then XH
-  else if n land 1 = 0 then XO (pos_of_int (n lsr 1))
-  else XI (pos_of_int (n lsr 1))
+  if n = 1 then M.XH
+  else if n land 1 = 0 then M.XO (pos_of_int (n lsr 1))
+  else M.XI (pos_of_int (n lsr 1))
 
 let z_of_int n =
-  if n = 0 then Z0 else if n > 0 then Zpos (pos_of_int n) else Zneg (pos_of_int (-n))
+  if n = 0 then M.Z0 else if n > 0 then M.Zpos (pos_of_int n) else M.Zneg (pos_of_int (-n))
 
 let chunk = 1_000_000_000_000_000 (* 10^15 *)
 let zchunk = z_of_int chunk
@@ -28,45 +28,45 @@ let z_of_string s =
       let l = min 15 (n - i) in
       let part = int_of_string (String.sub digits i l) in
       let mult = z_of_int (int_of_float (10. ** float_of_int l)) in
-      go (Z.add (Z.mul acc mult) (z_of_int part)) (i + l)
+      go (M.Z.add (M.Z.mul acc mult) (z_of_int part)) (i + l)
   in
-  let v = go Z0 0 in
-  if neg then Z.opp v else v
+  let v = go M.Z0 0 in
+  if neg then M.Z.opp v else v
 
 let rec int_of_pos_opt p bits =
   if bits > 60 then None
   else match p with
-    | XH -> Some 1
-    | XO q -> (match int_of_pos_opt q (bits + 1) with Some v -> Some (2 * v) | None -> None)
-    | XI q -> (match int_of_pos_opt q (bits + 1) with Some v -> Some (2 * v + 1) | None -> None)
+    | M.XH -> Some 1
+    | M.XO q -> (match int_of_pos_opt q (bits + 1) with Some v -> Some (2 * v) | None -> None)
+    | M.XI q -> (match int_of_pos_opt q (bits + 1) with Some v -> Some (2 * v + 1) | None -> None)
 
 let rec string_of_nonneg z =
   match z with
-  | Z0 -> "0"
-  | Zneg _ -> assert false
-  | Zpos p ->
+  | M.Z0 -> "0"
+  | M.Zneg _ -> assert false
+  | M.Zpos p ->
     (match int_of_pos_opt p 0 with
      | Some v -> string_of_int v
      | None ->
-       let (q, r) = Z.div_eucl z zchunk in
+       let (q, r) = M.Z.div_eucl z zchunk in
        let rs = string_of_nonneg r in
        string_of_nonneg q ^ String.make (15 - String.length rs) '0' ^ rs)
 
 let string_of_z z =
   match z with
-  | Zneg p -> "-" ^ string_of_nonneg (Zpos p)
+  | M.Zneg p -> "-" ^ string_of_nonneg (M.Zpos p)
   | _ -> string_of_nonneg z
 
 let rec print_sx buf s =
   match s with
-  | SZ z -> Buffer.add_string buf (string_of_z z)
-  | SL l ->
+  | M.SZ z -> Buffer.add_string buf (string_of_z z)
+  | M.SL l ->
     Buffer.add_char buf '(';
     List.iteri (fun i x -> if i > 0 then Buffer.add_char buf ' '; print_sx buf x) l;
     Buffer.add_char buf ')'
 
 (* recursive-descent parser over a string *)
-let parse_sx (s : string) (start : int) : sx =
+let parse_sx (s : string) (start : int) : M.sx =
   let n = String.length s in
   let i = ref start in
   let skip () = while !i < n && (s.[!i] = ' ' || s.[!i] = '\t') do incr i done in
@@ -83,11 +83,11 @@ let parse_sx (s : string) (start : int) : sx =
         if s.[!i] = ')' then (incr i; fin := true)
         else items := value () :: !items
       done;
-      SL (List.rev !items)
+      M.SL (List.rev !items)
     end else begin
       let j = !i in
       while !i < n && s.[!i] <> ' ' && s.[!i] <> '(' && s.[!i] <> ')' do incr i done;
-      SZ (z_of_string (String.sub s j (!i - j)))
+      M.SZ (z_of_string (String.sub s j (!i - j)))
     end
   in
   let v = value () in
